@@ -4,13 +4,7 @@
    the witness search when they or the correspondence break). *)
 From Coq Require Import NArith ZArith List Bool.
 Import ListNotations.
-From RCE Require Import lib.Bits lib.Geometry model.Board model.Movegen model.Wf spec.Rules.
-
-Definition abs (b : Board) : Pos :=
-  mkPos (map (fun i => get_piece b (sq_of_idx i)) (seq 0 64)) (current_turn b)
-        (p_rights (last_ply b)) (ep_file b) (halfmove_clock b) (Board.fullmove b).
-Definition move_of (m : Ply) : Move :=
-  mkMove (idx (p_start m)) (idx (p_dest m)) (match p_promoted m with Some k => Some (fst k) | None => None end).
+From RCE Require Import lib.Bits lib.Geometry model.Board model.Movegen model.Wf spec.Rules model.Abs.
 
 Definition opt_eqb {A} (f : A -> A -> bool) (a b : option A) : bool :=
   match a, b with Some x, Some y => f x y | None, None => true | _, _ => false end.
